@@ -1116,6 +1116,7 @@ def unpack_named_tuple(spec: ValueSpec) -> Expression:
         packed_value = spec.expression
     else:
         packed_value = "value"
+    member_exprs = []
     member_ctx = spec.field_ctx
     if deserialize_option in ("as_dict", "as_list"):
         # the engine of the named tuple is not an engine of its members
@@ -1128,10 +1129,17 @@ def unpack_named_tuple(spec: ValueSpec) -> Expression:
         )
     for idx, field in field_indices:
         member_type = annotations.get(field, Any)
+        if defaults and not as_dict:
+            # a member is read into a local first: only its absence may
+            # end the scan, not an IndexError raised while converting it
+            member_expr = "item"
+        else:
+            member_expr = f"{packed_value}[{idx}]"
+        member_exprs.append(f"{packed_value}[{idx}]")
         unpacker = UnpackerRegistry.get(
             spec.copy(
                 type=member_type,
-                expression=f"{packed_value}[{idx}]",
+                expression=member_expr,
                 could_be_none=True,
                 field_ctx=(
                     spec.field_ctx
@@ -1164,12 +1172,20 @@ def unpack_named_tuple(spec: ValueSpec) -> Expression:
         lines.append(f"def {method_name}({method_args}):")
     with lines.indent():
         lines.append("fields = []")
-        with lines.indent("try:"):
-            for unpacker in unpackers:
-                lines.append(f"fields.append({unpacker})")
-        with lines.indent("except IndexError:"):
-            lines.append("pass")
         field_type = spec.builder.get_type_name_identifier(spec.type)
+        if as_dict:
+            with lines.indent("try:"):
+                for unpacker in unpackers:
+                    lines.append(f"fields.append({unpacker})")
+            with lines.indent("except IndexError:"):
+                lines.append("pass")
+        else:
+            for member_expr, unpacker in zip(member_exprs, unpackers):
+                with lines.indent("try:"):
+                    lines.append(f"item = {member_expr}")
+                with lines.indent("except IndexError:"):
+                    lines.append(f"return {field_type}(*fields)")
+                lines.append(f"fields.append({unpacker})")
         lines.append(f"return {field_type}(*fields)")
     lines.append(
         f"setattr({spec.cls_attrs_name}, '{method_name}', {method_name})"
